@@ -65,4 +65,8 @@ ApplyDecimal(w, b) == Apply(w, b)
 IsDecimalSep(w) == w = "komma"
 DecimalMark == ","
 Annotate(toks) == {}
+
+Vocabulary == DOMAIN Units \cup DOMAIN Teens \cup DOMAIN Tens \cup Patterns \cup
+              {"nul", "komma", "eenentwintig", "tweeëntwintig", "drieënvijftig", "eenentwintigste", "tweehonderd", "honderdeen", "tweeduizend",
+               "driehonderdduizend", "negentienhonderddrieënzeventig", "tweehonderdste", "duizendste", "vijfendertigste", "honderden", "katten", "de"}
 =============================================================================
